@@ -58,6 +58,40 @@ def oracle(tr):
     return bad
 
 
+def oracle_names(tr):
+    """the sender clauses, and: whatever the bus says about a unique name (NameAcquired, NameOwnerChanged, GetNameOwner, ListQueuedOwners)
+    never makes a connection other than the one it was minted for its owner"""
+    bad = oracle(tr)
+    mine = {}           # connection -> the unique name it was told it acquired (at Hello)
+    for i, (per, closed) in enumerate(tr.steps):
+        op = tr.ops[i]
+        sent = tr.sent(i) if op[0] == "send" else None
+        if sent and hexname(fld(sent, "member")) == "RequestName" and hexname(fld(sent, "dest")) == BUS and (fld(sent, "body") or "").startswith("s:3a"):
+            for l in per.get(op[1], []):
+                if fld(l, "t") == "2" and fld(l, "rs") == fld(sent, "ser") and (fld(l, "body") or "") in ("u:1", "u:2") and \
+                        mine.get(op[1]) != hexname((fld(sent, "body") or "").split(",")[0][2:]):
+                    bad.append((None, "step %d: RequestName for the unique name %s by connection %d (%s) was granted (reply %s): the name is given, or promised, "
+                                "to another connection" % (i, hexname((fld(sent, "body") or "").split(",")[0][2:]), op[1], mine.get(op[1]), fld(l, "body"))))
+        for to, lines in per.items():
+            for l in lines:
+                if hexname(fld(l, "sender")) != BUS:
+                    continue
+                mem, body = hexname(fld(l, "member")), fld(l, "body") or ""
+                args = []
+                for part in body.split(","):
+                    if part.startswith("s:"):
+                        try: args.append(bytes.fromhex(part[2:]).decode("latin1"))
+                        except ValueError: args.append(None)
+                if mem == "NameAcquired" and args and args[0] and args[0].startswith(":") and mine.setdefault(to, args[0]) != args[0]:
+                    bad.append((None, "step %d: NameAcquired(%s) sent to connection %d, which is %s: a unique name changed hands" % (i, args[0], to, mine[to])))
+                if mem == "NameLost" and args and args[0] and args[0].startswith(":"):
+                    bad.append((None, "step %d: NameLost(%s) sent to connection %d: a unique name changed hands" % (i, args[0], to)))
+                if mem == "NameOwnerChanged" and len(args) == 3 and args[0] and args[0].startswith(":"):
+                    if (args[1] or "") not in ("", args[0]) or (args[2] or "") not in ("", args[0]):
+                        bad.append((None, "step %d: NameOwnerChanged(%s, %s, %s): a unique name is owned by another connection" % (i, args[0], args[1], args[2])))
+    return bad
+
+
 def oracle_fields(tr):
     """header hygiene alone, for histories in which messages are held and delivered later (the sender is then not the
     connection acting at that step)"""
@@ -79,6 +113,11 @@ def run(ctx):
     buscheck.run_histories(ctx, n, 70 if ctx.quick() else 110, oracle, gen_kw={"weights": WEIGHTS, "max_conns": 5},
                            findings=findings, label="forged-headers")
     buscheck.run_histories(ctx, n // 3, 60, oracle, gen_kw={"max_conns": 4}, findings=findings, seed_salt=1, label="mixed")
+    # "never given to another connection": connections asking for each other's (and their own) unique names, the holders leaving, others
+    # then talking to and asking about those names
+    buscheck.run_histories(ctx, n // 2, 70, oracle_names, gen_kw={"max_conns": 5, "request_uniques": True,
+                                                                  "weights": {"request": 22, "release": 5, "close": 12, "connect": 10, "hello": 12, "query": 16, "call": 14, "signal": 4}},
+                           findings=findings, seed_salt=4, label="unique-names-requested")
     # every way a message can leave the bus: also as a copy for a monitor (captured whether or not it is relayed) ...
     buscheck.run_histories(ctx, n // 2, 70, oracle_fields, gen_kw={"weights": dict(WEIGHTS, monitor=4), "max_conns": 5}, findings=findings,
                            seed_salt=2, label="forged-headers-with-monitors")
